@@ -16,6 +16,7 @@ def core():
     return [
         ["add", "Q", "A01", 30, {"label": "L"}],
         ["remove", "P", ["A01"], 7.5, {}],
+        ["add", "Q", ["B02", "C01"], [1.25, 0.0625], {}],  # more decimals than the report prints
         ["aspirate", "e", "P", ["A01", "B01"], [7.5, 30], {"label": "L"}],
         ["dispense", "f", "Q", ["A01", "A02"], 30, {}],
         T("e", "P", ["A01"], "Q", ["A01"], [30], None),
@@ -221,8 +222,12 @@ class Harness(cm.BaseA):
                             V.append(("C11/large-volume-note", f"transfer label={label!r} split nothing; entry of {n} is labelled {got!r}"))
                 elif (got or "") != (label or ""):
                     V.append(("C11/label", f"{op} label={label!r}: newest entry of {n} is labelled {got!r}"))
-            # the report lists the same entries in the same order
+            # the report lists the same entries in the same order (and reading it changes nothing)
+            hcopy = [a.copy() for _, a in lw.history]
+            vcopy = lw.volumes
             rep = lw.report
+            if any(not np.array_equal(a, b) for (_, a), b in zip(lw.history, hcopy)) or not np.array_equal(lw.volumes, vcopy):
+                V.append(("C11/snapshot-mutated", f"reading {n}.report changed the history or the volumes of {n}"))
             pos = len(lw.name) if rep.startswith(lw.name) else -1
             if pos < 0:
                 V.append(("C11/report", f"report of {n} does not start with its name"))
